@@ -29,7 +29,8 @@ use super::{Answer, Error, IdentityAnswer, Query, QueryProtocol};
 ///
 #[derive(Clone)]
 pub struct InboundQueryService {
-    room_sender: UnboundedSender<Uid>,
+    //room identifier, and whether the room is now allowed (true) or not allowed anymore (false)
+    room_sender: UnboundedSender<(Uid, bool)>,
 }
 impl InboundQueryService {
     #[allow(clippy::too_many_arguments)]
@@ -43,7 +44,7 @@ impl InboundQueryService {
         verifying_key: Arc<Mutex<Vec<u8>>>,
         conn_ready: Arc<AtomicBool>,
     ) -> Self {
-        let (room_sender, mut room_receiver) = mpsc::unbounded_channel::<Uid>();
+        let (room_sender, mut room_receiver) = mpsc::unbounded_channel::<(Uid, bool)>();
 
         tokio::spawn(async move {
             loop {
@@ -62,7 +63,13 @@ impl InboundQueryService {
                     }
                     msg = room_receiver.recv() =>{
                         match msg{
-                            Some(uid) => peer.add_allowed_room(uid),
+                            Some((uid, allowed)) => {
+                                if allowed {
+                                    peer.add_allowed_room(uid)
+                                } else {
+                                    peer.remove_allowed_room(uid)
+                                }
+                            },
                             None => break,
                         }
                     }
@@ -477,7 +484,11 @@ impl InboundQueryService {
         }
     }
     pub fn add_allowed_room(&self, room: Uid) {
-        let _ = self.room_sender.send(room);
+        let _ = self.room_sender.send((room, true));
+    }
+
+    pub fn remove_allowed_room(&self, room: Uid) {
+        let _ = self.room_sender.send((room, false));
     }
 }
 
@@ -490,6 +501,10 @@ pub struct RemotePeerHandle {
 impl RemotePeerHandle {
     fn add_allowed_room(&mut self, room: Uid) {
         self.allowed_room.insert(room);
+    }
+
+    fn remove_allowed_room(&mut self, room: Uid) {
+        self.allowed_room.remove(&room);
     }
 
     async fn send<T: Serialize>(
